@@ -8,3 +8,17 @@
   (! (=> (>= k 0) (= (sumPtr p o f (+ k 1))
         (+ (sumPtr p o f k) (ite (= (select p (+ o k)) 0) 0 (select f (select p (+ o k)))))))
      :pattern ((sumPtr p o f k)))))
+
+;; cntB(t, p, o, k): the number of i < k with t[p[o+i]] true, where t is a table
+;; (predicate over references) and p[o..] a slice of references.  Recurrence axioms,
+;; plus the bound 0 <= cntB <= k (a consequence of the recurrence by induction, stated
+;; as an axiom because the solver does no induction).
+(declare-fun cntB ((Array Int Bool) (Array Int Int) Int Int) Int)
+(assert (forall ((t (Array Int Bool)) (p (Array Int Int)) (o Int)) (! (= (cntB t p o 0) 0) :pattern ((cntB t p o 0)))))
+(assert (forall ((t (Array Int Bool)) (p (Array Int Int)) (o Int) (k Int))
+  (! (=> (>= k 0) (= (cntB t p o (+ k 1))
+        (+ (cntB t p o k) (ite (select t (select p (+ o k))) 1 0))))
+     :pattern ((cntB t p o k)))))
+(assert (forall ((t (Array Int Bool)) (p (Array Int Int)) (o Int) (k Int))
+  (! (=> (>= k 0) (and (<= 0 (cntB t p o k)) (<= (cntB t p o k) k)))
+     :pattern ((cntB t p o k)))))
